@@ -46,7 +46,7 @@ def tu():
     return s
 
 
-GH = 'g_turn, g_pos, g_done, g_iter, g_last, g_called[0], g_ok[0], g_len[0], g_ncalls[0], g_called[1], g_ok[1], g_len[1], g_ncalls[1], vf_exc, g_exc_obj, g_exc_type'
+GH = 'g_turn, g_pos, g_done, g_iter, g_last, g_called[0], g_ok[0], g_len[0], g_ncalls[0], g_called[1], g_ok[1], g_len[1], g_ncalls[1], vf_exc, vf_exc_counter, g_exc_obj, g_exc_type'
 
 
 def loop_inv(turn, extra='', locals_assigned=''):
